@@ -449,6 +449,48 @@ theorem postprocess_bounded (S : SF) (hS : okPost S = true) (cfg : Cfg) (ex : St
     (h : ∀ j ∈ t.flatten, Bounded cfg hops j) : ∀ j ∈ (postprocess S cfg ex t).1.flatten, Bounded cfg hops j :=
   Tree.post_bounded S hS cfg ex hops _ _ _ _ t h
 
+/-! ### closeBodies: after postprocess no node down to the working depth holds a body (C16) -/
+
+mutual
+theorem Tree.post_closes (S : SF) (cfg : Cfg) (ex : String → Extract) (d lvl : Nat) (pdnr : Int) (isSeed : Bool) (t : Tree) (n : Nat)
+    (hn : lvl + n ≤ d) : ∀ i ∈ ((t.post S cfg ex d lvl pdnr isSeed).1).atLevel n, i.body = false := by
+  match t, n with
+  | .node i k, 0 =>
+    unfold Tree.post
+    split
+    · split
+      · show ∀ j ∈ ((match postAct S cfg ex i (nodeDnr isSeed i.st pdnr) with
+            | PostAct.complete => _ | PostAct.redirect c => _ | PostAct.extract kids outs => _ : Tree × List Outlink).1).atLevel 0, _
+        split <;> (intro j hj; simp only [Tree.atLevel, List.mem_singleton] at hj; subst hj; rfl)
+      · intro j hj; simp only [Tree.atLevel, List.mem_singleton] at hj; subst hj; rfl
+    · intro j hj; simp only [Tree.atLevel, List.mem_singleton] at hj; subst hj; rfl
+  | .node i k, n + 1 =>
+    unfold Tree.post
+    split
+    · rename_i hl
+      have : lvl = d := by simpa using hl
+      omega
+    · intro j hj
+      simp only [Tree.atLevel] at hj
+      exact Forest.post_closes S cfg ex d (lvl + 1) _ k n (by omega) j hj
+theorem Forest.post_closes (S : SF) (cfg : Cfg) (ex : String → Extract) (d lvl : Nat) (pdnr : Int) (f : Forest) (n : Nat)
+    (hn : lvl + n ≤ d) : ∀ i ∈ ((f.post S cfg ex d lvl pdnr).1).atLevel n, i.body = false := by
+  match f with
+  | .nil => intro i hi; simp [Forest.post, Forest.atLevel] at hi
+  | .cons t f =>
+    intro i hi
+    simp only [Forest.post, Forest.atLevel, List.mem_append] at hi
+    rcases hi with hi | hi
+    · exact Tree.post_closes S cfg ex d lvl pdnr false t n hn i hi
+    · exact Forest.post_closes S cfg ex d lvl pdnr f n hn i hi
+end
+
+/-- `postprocess` ends with `closeBodies`: no node down to the working depth still holds its response body;
+the nodes it creates below start without one -/
+theorem postprocess_closes_bodies (S : SF) (cfg : Cfg) (ex : String → Extract) (t : Tree) (n : Nat) (hn : n ≤ t.maxDepth) :
+    ∀ i ∈ ((postprocess S cfg ex t).1).atLevel n, i.body = false :=
+  Tree.post_closes S cfg ex t.maxDepth 0 0 true t n (by omega)
+
 /-! ### the local seen-store (C08) -/
 
 /-- is the node checked as a "seed" (the seed itself or a redirect target) rather than as an asset? -/
